@@ -337,7 +337,7 @@ func (c *Ctx) termLabels(fn *ssa.Function) *termSum {
 		// results
 		rei := core.ErrorResultIndex(fn.Signature)
 		for _, ret := range core.ReturnsOf(fn) {
-			if rei >= 0 && c.M.ProvablyNonNilError(core.RetVal(ret, rei), ret.Block()) {
+			if rei >= 0 && c.M.RetNonNil(ret, rei) {
 				continue // the other results of an error return are never used as data
 			}
 			for i := range ret.Results {
@@ -481,7 +481,26 @@ type termEdge struct {
 // RefSchema.referencedObjectCache, the result of GetObject(), and everything projected out of those (method results
 // on them, range variables over those results, lookups, conversions).
 func (c *Ctx) refDerived(fn *ssa.Function) map[ssa.Value]bool {
+	if c.refDerivedMemo == nil {
+		c.refDerivedMemo = map[*ssa.Function]map[ssa.Value]bool{}
+	}
+	if R, done := c.refDerivedMemo[fn]; done {
+		return R // (nil while in progress: a recursive worker learns nothing from its own call)
+	}
+	c.refDerivedMemo[fn] = nil
 	R := map[ssa.Value]bool{}
+	// a parameter of an unexported function that some caller fills with (a part of) the object behind a reference: the
+	// dereference was made by the caller, the function works on its result
+	for i, p := range fn.Params {
+		for _, call := range core.PlainSites(fn) {
+			if i < len(call.Call.Args) && call.Parent() != fn {
+				if c.refDerived(call.Parent())[call.Call.Args[i]] {
+					R[p] = true
+				}
+			}
+		}
+	}
+	defer func() { c.refDerivedMemo[fn] = R }()
 	for changed := true; changed; {
 		changed = false
 		set := func(v ssa.Value) {
@@ -1976,6 +1995,7 @@ func (c *Ctx) memberTableLookups(fn *ssa.Function) (lookups []*ssa.Lookup, conve
 			lookups = append(lookups, lk)
 			set := map[*ssa.Function]bool{}
 			seen := map[ssa.Value]bool{}
+			resultIdx := map[*ssa.Call]int{}
 			var walk func(v ssa.Value, d int)
 			walk = func(v ssa.Value, d int) {
 				if v == nil || d > 8 || seen[v] {
@@ -1986,13 +2006,24 @@ func (c *Ctx) memberTableLookups(fn *ssa.Function) (lookups []*ssa.Lookup, conve
 				case *ssa.Call:
 					if sc := x.Call.StaticCallee(); sc != nil && strings.HasPrefix(c.M.Key(sc), "schema.") {
 						if o := sc.Origin(); o != nil {
-							set[o] = true
-						} else {
-							set[sc] = true
+							sc = o
 						}
+						// a helper that hands on the result of the conversion stands for the conversion
+						idx := resultIdx[x]
+						for hop := 0; hop < 3; hop++ {
+							inner, i, passes := core.PassesOn(c.M.Source(sc), idx)
+							if !passes {
+								break
+							}
+							sc, idx = inner, i
+						}
+						set[sc] = true
 					}
 					return
 				case *ssa.Extract:
+					if call, isCall := x.Tuple.(*ssa.Call); isCall {
+						resultIdx[call] = x.Index
+					}
 					walk(x.Tuple, d+1)
 				case *ssa.Phi:
 					for _, e := range x.Edges {
